@@ -212,6 +212,110 @@ func RunImpl(src string, cfg *Config) *ImplRun {
 		}
 		return 1 + len(vals)
 	}))
+	L.SetGlobal("godrive", L.NewFunction(func(L *lua.LState) int {
+		// drives a coroutine through the Go API to its end: godrive(f, maxsteps, ...) ->
+		// per step a tag ("Y" yielded, "R" returned, "E" failed), the number of values and the
+		// values; a final "D" when the finished coroutine refuses another resume
+		fn, ok := L.Get(1).(*lua.LFunction)
+		if !ok {
+			L.RaiseError("godrive: function expected")
+		}
+		max := int(lua.LVAsNumber(L.Get(2)))
+		var args []lua.LValue
+		for i := 3; i <= L.GetTop(); i++ {
+			args = append(args, L.Get(i))
+		}
+		top := L.GetTop()
+		th, _ := L.NewThread()
+		var out []lua.LValue
+		for step := 1; step <= max; step++ {
+			st, err, vals := L.Resume(th, fn, args...)
+			if L.GetTop() != top {
+				out = append(out, lua.LString("GODRIVE-CHANGED-THE-RESUMERS-STACK"))
+				break
+			}
+			if st == lua.ResumeError {
+				out = append(out, lua.LString("E"), lua.LNumber(1))
+				if ae, ok := err.(*lua.ApiError); ok && ae.Object != nil {
+					out = append(out, ae.Object)
+				} else {
+					out = append(out, lua.LString(err.Error()))
+				}
+			} else {
+				tag := "Y"
+				if st == lua.ResumeOK {
+					tag = "R"
+				}
+				out = append(out, lua.LString(tag), lua.LNumber(len(vals)))
+				out = append(out, vals...)
+			}
+			if st != lua.ResumeYield {
+				// a finished coroutine refuses every further resume, however often it is tried
+				tag := "D"
+				for again := 0; again < 300; again++ {
+					if st2, _, _ := L.Resume(th, fn); st2 != lua.ResumeError {
+						tag = "RESUMED-A-FINISHED-COROUTINE"
+						break
+					}
+				}
+				out = append(out, lua.LString(tag))
+				break
+			}
+			args = []lua.LValue{lua.LNumber(step * 100), lua.LNumber(len(vals))}
+		}
+		L.SetTop(0)
+		for _, v := range out {
+			L.Push(v)
+		}
+		return len(out)
+	}))
+	L.SetGlobal("gores", L.NewFunction(func(L *lua.LState) int {
+		// resumes an existing, already started coroutine through the Go API:
+		// gores(co, ...) -> "refused" | true, values... | false, error value
+		th, ok := L.Get(1).(*lua.LState)
+		if !ok {
+			L.RaiseError("gores: coroutine expected")
+		}
+		var args []lua.LValue
+		for i := 2; i <= L.GetTop(); i++ {
+			args = append(args, L.Get(i))
+		}
+		top := L.GetTop()
+		st, err, vals := L.Resume(th, nil, args...)
+		if L.GetTop() != top {
+			L.SetTop(0)
+			L.Push(lua.LString("GORES-CHANGED-THE-RESUMERS-STACK"))
+			return 1
+		}
+		L.SetTop(0)
+		if st == lua.ResumeError {
+			if ae, ok := err.(*lua.ApiError); ok && ae.Object != nil {
+				if s, ok := ae.Object.(lua.LString); ok && strings.HasPrefix(string(s), "can not resume") {
+					L.Push(lua.LString("refused"))
+					return 1
+				}
+				L.Push(lua.LFalse)
+				L.Push(ae.Object)
+				return 2
+			}
+			L.Push(lua.LFalse)
+			L.Push(lua.LString(err.Error()))
+			return 2
+		}
+		L.Push(lua.LTrue)
+		for _, v := range vals {
+			L.Push(v)
+		}
+		return 1 + len(vals)
+	}))
+	L.SetGlobal("hosty", L.NewFunction(func(L *lua.LState) int {
+		// a host function that yields its arguments the way the README shows
+		var args []lua.LValue
+		for i := 1; i <= L.GetTop(); i++ {
+			args = append(args, L.Get(i))
+		}
+		return L.Yield(args...)
+	}))
 	L.SetGlobal("snap", L.NewFunction(func(L *lua.LState) int {
 		r.Snaps = append(r.Snaps, lua.VerifSnapshot(L))
 		return 0
@@ -384,6 +488,60 @@ func RunModel(c *last.Chunk, cfg *Config) *ModelRun {
 			res = []lref.Value{nil} // LState.Resume reports one nil when there are no values
 		}
 		return append([]lref.Value{ok}, res...)
+	})
+	in.Register("godrive", func(in *lref.Interp, a []lref.Value) []lref.Value {
+		if len(a) == 0 {
+			in.RTError("godrive: function expected")
+		}
+		max := 0
+		if f, ok := first(a[1:]).(float64); ok {
+			max = int(f)
+		}
+		var args []lref.Value
+		if len(a) > 2 {
+			args = a[2:]
+		}
+		co := in.NewCoroutine(a[0])
+		var out []lref.Value
+		for step := 1; step <= max; step++ {
+			ok, res := in.Resume(co, args)
+			if !ok {
+				out = append(out, "E", float64(1), first(res))
+			} else {
+				if len(res) == 0 {
+					res = []lref.Value{nil} // LState.Resume reports one nil when there are no values
+				}
+				tag := "Y"
+				if co.Status() == "dead" {
+					tag = "R"
+				}
+				out = append(out, tag, float64(len(res)))
+				out = append(out, res...)
+			}
+			if co.Status() == "dead" {
+				out = append(out, "D")
+				break
+			}
+			args = []lref.Value{float64(step * 100), float64(len(res))}
+		}
+		return out
+	})
+	in.Register("gores", func(in *lref.Interp, a []lref.Value) []lref.Value {
+		co, ok := first(a).(*lref.Coroutine)
+		if !ok {
+			in.RTError("gores: coroutine expected")
+		}
+		if co.Status() != "suspended" {
+			return []lref.Value{"refused"}
+		}
+		ok2, res := in.Resume(co, a[1:])
+		if ok2 && len(res) == 0 {
+			res = []lref.Value{nil}
+		}
+		return append([]lref.Value{ok2}, res...)
+	})
+	in.Register("hosty", func(in *lref.Interp, a []lref.Value) []lref.Value {
+		return in.Yield(a)
 	})
 	in.Register("hostcall", func(in *lref.Interp, a []lref.Value) []lref.Value {
 		if len(a) == 0 {
